@@ -4,7 +4,7 @@ set -e
 cd "$(dirname "$0")"
 mkdir -p work evidence replays cache
 make nets >/dev/null
-for f in plain asan tsan; do
+for f in plain asan tsan plain-ssse3 plain-avx2 plain-avx512; do
   make -j16 FLAVOUR=$f >/dev/null 2>build/setup_$f.log || { tail -30 build/setup_$f.log; exit 1; }
 done
 # oracle caches used by the quick checks
